@@ -164,3 +164,52 @@ Fixpoint nodup_classes (l : list sclass) : bool :=
   match l with [] => true | x :: t => negb (mem_class x t) && nodup_classes t end.
 Definition chains_ok : bool :=
   chain_eqb create_chain recycle_chain && nodup_classes (map snd create_chain).
+
+(* ---------------- thread_stacksize::current: which class a created task gets ----------------
+   A creation request carries either an explicit class or `current`.  A piece of code runs in a
+   CONTEXT: [Some c] = inside a task whose stacksize_enum_ is c, [None] = no task (the scheduling
+   loop of a worker, a plain OS thread); get_self_stacksize_enum() is [self_class].
+   thread_queue::create_thread runs in the creator's context; it replaces `current` at the place
+   the source has it (Gen.current_resolution, regenerated) and then either creates the thread
+   object at once (run_now: high / boost priority, register_thread — still the creator's context)
+   or stores the init data in a task description, which a worker converts later in ITS context
+   (thread_queue::add_new, called from the scheduling loop).  create_thread_object asks
+   scheduler_base::get_stack_size(data.stacksize), which resolves a remaining `current` in the
+   context of its caller; the new thread_data's stacksize_enum_ is the init data's value
+   (td_ctor / td_rebind: F_stacksize_enum := RInit I_stacksize). *)
+Inductive sreq : Set := Explicit (c : sclass) | Current.
+Inductive cpath : Set := RunNow | Staged.
+
+Definition self_class (ctx : option sclass) : sclass :=
+  match ctx with Some c => c | None => no_self_class end.
+Definition resolve (ctx : option sclass) (r : sreq) : sclass :=
+  match r with Explicit c => c | Current => self_class ctx end.
+
+(* the request as it stands in the thread_init_data when the paths split / when it is stored,
+   for a resolution site [site]; the code's site is Gen.current_resolution *)
+Definition create_prologue_at (site : cur_site) (path : cpath) (creator : option sclass) (r : sreq) : sreq :=
+  match site, path with
+  | CurBeforeSplit, _ => Explicit (resolve creator r)
+  | CurRunNowOnly, RunNow => Explicit (resolve creator r)
+  | CurStagedOnly, Staged => Explicit (resolve creator r)
+  | _, _ => r
+  end.
+Definition create_prologue : cpath -> option sclass -> sreq -> sreq := create_prologue_at current_resolution.
+(* context in which create_thread_object runs *)
+Definition object_ctx (path : cpath) (creator conv : option sclass) : option sclass :=
+  match path with RunNow => creator | Staged => conv end.
+(* class whose configured size the new task's stack gets (create_thread_object) *)
+Definition created_class (path : cpath) (creator conv : option sclass) (r : sreq) : sclass :=
+  resolve (object_ctx path creator conv) (create_prologue path creator r).
+(* what the new task itself reports as its class (stacksize_enum_): [None] = the unresolved
+   enumerator `current` was stored (PIKA_ASSERT in debug builds) *)
+Definition created_enum (path : cpath) (creator : option sclass) (r : sreq) : option sclass :=
+  match create_prologue path creator r with Explicit c => Some c | Current => None end.
+
+(* a chain of creations: every generation is created by a task of the previous one, through some
+   path, converted (if staged) in some context *)
+Fixpoint descend (c : sclass) (gens : list (cpath * option sclass * sreq)) : sclass :=
+  match gens with
+  | [] => c
+  | (path, conv, r) :: t => descend (created_class path (Some c) conv r) t
+  end.
